@@ -30,7 +30,7 @@ def _should_set_millisecond(cr, marking_type):
     # which was not given with millisecond precision
     if getattr(cr, 'precision', None) == Precision.MILLISECOND:
         return True
-    return bool(cr.microsecond)
+    return bool(getattr(cr, 'microsecond', 0))
 
 
 class ExternalReference(_STIXBase20):
